@@ -73,6 +73,19 @@ func bodyChannel(port int, name []byte) []byte {
 	return append(b, name...)
 }
 
+// bodyChannelMulti is a CHANNEL_CREATE body with several resource names and alternate names (the
+// gateway uses the first resource name; the others are carried by the protocol and must be inert).
+func bodyChannelMulti(port int, names [][]byte, alts [][]byte) []byte {
+	b := []byte{byte(len(names)), byte(len(alts))}
+	b = append(b, le16(port)...)
+	b = append(b, le16(3)...)
+	for _, n := range append(append([][]byte{}, names...), alts...) {
+		b = append(b, le16(len(n))...)
+		b = append(b, n...)
+	}
+	return b
+}
+
 func bodyData(payload []byte) []byte { return append(le16(len(payload)), payload...) }
 
 // ---------------------------------------------------------------------------
@@ -170,8 +183,10 @@ type hostListener struct {
 	hangup bool
 }
 
-func newHostListener() *hostListener {
-	ln, err := net.ListenTCP("tcp4", &net.TCPAddr{IP: net.IPv4(127, 0, 0, 1)})
+func newHostListener() *hostListener { return newHostListenerOn(net.IPv4(127, 0, 0, 1)) }
+
+func newHostListenerOn(ip net.IP) *hostListener {
+	ln, err := net.ListenTCP("tcp4", &net.TCPAddr{IP: ip})
 	if err != nil {
 		panic(err)
 	}
